@@ -34,5 +34,11 @@ def run(report, tier):
                 bounds=f"{len(H.TEXTS)} texts x (parse once | parse twice)", functions=FUNCS, timeout=300, shards=8,
                 sample={"text": "CopyDecay MyD+ D+ / CDecay MyD-"}),
     ]
+    hs.append(Harness(name="pure-values", module="harness.c08", body="body_pure", sig="sel: int, v: int", n_sel=H.N_PURE,
+                      claim="whatever value is written into every position of a returned structure, it never comes back from the same or "
+                            "another query, and all answers stay those of a fresh instance",
+                      bounds=f"{len(H.TEXTS)} texts x {H.N_OPS} query call shapes; the post-processing in dec.py runs traced",
+                      symbolic="the value written into the returned structures: any int (object identity is tracked)", functions=FUNCS,
+                      timeout=600, sample={"op": "build_decay_chains(first)", "value": "symbolic"}))
     for h in hs:
         chrun.run_harness(report, h)
